@@ -34,6 +34,9 @@ def tree_scopes(tier, updates=1, ro=1, fill=1, growth=True, logs=True, rnd=True)
         S("tree", type="T32u8u64", mode="bfs", slots=4, cap=4, keys=keys(5), updates=0, ro=ro, fill=fill),
         S("tree", type="T8u64u8", mode="bfs", slots=5, cap=5, keys=keys(6), updates=0, ro=0, fill=fill),
         S("tree", type="T8i64u64", mode="bfs", slots=3, cap=3, keys=I64, updates=updates, ro=ro, fill=fill, fresh_base=100),
+        # 32-byte array keys / values (public-key-like), record = 16 + 32 + 8 resp. 4 + 32 + 32 bytes
+        S("tree", type="T32a32u64", mode="bfs", slots=3, cap=3, keys="0,1,2,255", updates=0, ro=ro, fill=fill),
+        S("tree", type="T8a32a32", mode="bfs", slots=3, cap=3, keys="0,1,2,255", updates=updates, ro=0, fill=fill),
     ]
     if growth:
         q += [
@@ -121,6 +124,7 @@ def hset_scopes(tier, fill=1, rnd=True):
         S("hset", type="HU8", mode="bfs", slots=3, cap=3, vals="0,1,2,3,4,255", fill=fill),
         S("hset", type="HU32", mode="bfs", slots=3, cap=2, vals=keys(5), fill=fill),
         S("hset", type="HWeak", mode="bfs", slots=1, cap=1, vals=keys(4), fill=fill),
+        S("hset", type="HA32", mode="bfs", slots=3, cap=3, vals=keys(5), fill=fill),
     ]
     if rnd:
         q += [
